@@ -407,15 +407,31 @@ func init() {
 			names = append(names, n)
 		}
 		sort.Strings(names)
-		kinds := []string{"NodeClaim", "Node", "Pod"}
-		perms := permutations(3)
 		r.Rule = fmt.Sprintf("%d mutation scripts (launch / provider-id set late / pods completing, deleted, recreated under the same name elsewhere / Node and NodeClaim deletions in both orders / explicit deletion marks and deleting claims / CSINode limits / two pools) are applied to the API; after every mutation each notified key is either delivered to the REAL informer reconciler at once (default) or deferred, and earlier keys may be re-delivered (duplicates); all delivery histories with <=%d such deviations are explored, each ending with the delivery of the still-unobserved keys in each of 12 orders (6 kind orders x 2 key orders, level-triggered retries). "+
 			"Oracle, evaluated at EVERY point where the latest version of every object has been observed (not only at the end): the cache observed through exported accessors must equal (1) a fresh cache fed the final objects claims-first and (2) one fed nodes-and-pods-first, and (3) an independent recomputation of node set, per-node pod/daemon cpu, disruption cost, deletion marks and per-pool totals from the API objects. states = quiescent points checked; non-trivial = distinct (script, delivery history)", len(names), bound)
 		r.Assumptions = []string{"deliveries are atomic (no preemption inside an informer reconcile)", "explicit deletion marks are in-memory inputs; the reference tracks them by provider id"}
 		enum.RunEveryShard(r, int64(len(names)), func(i int64, l *ev.Local) {
-			script := c11Scripts[names[i]]
 			ex := &explore.Explorer{Bound: bound, MaxExecs: 400000, Stop: r.Expired, Shard: r.Shard, NShards: r.Shards}
-			ex.Exec = func(run *explore.Run) {
+			ex.Exec = c11MakeExec(names[i], l, bound)
+			ex.Explore()
+			noteDiverged(l, ex, "prefix")
+			l.Transitions += int64(ex.Points)
+			if ex.Capped {
+				l.Outcome("exploration-capped")
+				r.Exhaustive = false
+			}
+		})
+	})
+}
+
+// c11MakeExec returns the function that executes ONE delivery history of the named script under the run's choices and
+// judges it at every quiescent point.
+func c11MakeExec(name string, l *ev.Local, bound int) func(run *explore.Run) {
+	script := c11Scripts[name]
+	kinds := []string{"NodeClaim", "Node", "Pod"}
+	perms := permutations(3)
+	_, _ = kinds, perms
+	return func(run *explore.Run) {
 				l.Mute = run.Replica
 				w := world.New(world.Options{})
 				w.CP.Catalog[""] = world.BuildCatalog(K1)
@@ -445,7 +461,7 @@ func init() {
 						return digestCluster(w, c)
 					}
 					report := func(sig, what string, have, want []string) {
-						l.Violation(sig, fmt.Sprintf("%s  [script=%s history=%v]\n cache: %v\n  want: %v", what, names[i], x.history, diffLines(have, want), diffLines(want, have)), map[string]any{"script": names[i], "choices": run.Choices(), "history": append([]string{}, x.history...), "cache": have, "expected": want})
+						l.Violation(sig, fmt.Sprintf("%s  [script=%s history=%v]\n cache: %v\n  want: %v", what, name, x.history, diffLines(have, want), diffLines(want, have)), map[string]any{"script": name, "choices": run.Choices(), "history": append([]string{}, x.history...), "cache": have, "expected": want})
 					}
 					f1 := fresh([]string{"NodeClaim", "Node", "Pod"})
 					f2 := fresh([]string{"Node", "Pod", "NodeClaim"})
@@ -554,20 +570,29 @@ func init() {
 				l.Eval()
 				l.Trace()
 				l.States += int64(checkpoints)
-				l.Nontrivial(names[i] + "/" + strings.Join(x.history, ","))
+				l.Nontrivial(name + "/" + strings.Join(x.history, ","))
 				l.Outcome(strings.Join(got, " | "))
 				if run.Used == bound && len(x.history)%11 == 0 {
-					l.Sample(map[string]any{"script": names[i], "history": x.history, "cache": got})
+					l.Sample(map[string]any{"script": name, "history": x.history, "cache": got})
 				}
 			}
-			ex.Explore()
-			noteDiverged(l, ex, "prefix")
-			l.Transitions += int64(ex.Points)
-			if ex.Capped {
-				l.Outcome("exploration-capped")
-				r.Exhaustive = false
-			}
-		})
+}
+
+func init() {
+	registerReplay("C11", func(d map[string]any) []string {
+		name, _ := d["script"].(string)
+		if _, ok := c11Scripts[name]; !ok {
+			fmt.Println("unknown script", name)
+			return nil
+		}
+		r := ev.New("C11", "replay", "model_checking")
+		l := r.Local()
+		c11MakeExec(name, l, 99)(explore.Replay(intList(d["choices"])))
+		sigs := r.ViolationSigs()
+		for _, sg := range sigs {
+			fmt.Printf("violation %q: %s\n", sg, r.ViolationMsg(sg))
+		}
+		return sigs
 	})
 }
 
